@@ -20,7 +20,8 @@ def two_specs():
         aux = Grid.from_positions([20.0 + dx, 21.0 + dx, 22.0 + dx], [1.0, 2.0, 3.0, 4.0])
         lay = Layout({"traps": traps, "aux": aux}, {"traps"}, {"traps"}, {"aux"}, special_grid={"park": Grid.from_positions([-4.0 - dx, -2.0], [0.5, 1.5])})
         return ArchSpec(layout=lay, float_constants={"pitch": pitch}, int_constants={"rows": rows})
-    return {"A": mk(0.0, 2, 2.5), "B": mk(100.0, 3, 7.5)}
+    # C has the layout of A (equal grids, equal tables) and other constants
+    return {"A": mk(0.0, 2, 2.5), "B": mk(100.0, 3, 7.5), "C": mk(0.0, 3, 4.0)}
 
 
 SHARED = '''
@@ -66,6 +67,13 @@ def lib_hopx(x: float):
     f = schedule.device_fn(hop, [0, 1], [0])
     f(x)
 
+@move(fold=False)
+def lib_raw(k: int):
+    x = 1 + 2
+    lib_gate()
+    gate.global_rz(spec.get_float_constant(constant_id="pitch"))
+    return x + k
+
 @move
 def lib_layer(k: int):
     lib_gate()
@@ -75,12 +83,13 @@ KERNELS = {
     "K1": "def K1():\n    lib_gate()\n    return lib_rows(0)\n",
     "K2": "def K2():\n    x = lib_park()\n    lib_gate()\n    return x\n",
     "K6": "def K6(x: float):\n    lib_gate()\n    lib_hopx(x)\n    return 6\n",       # its device call can only be evaluated at run time
+    "K7": "def K7():\n    return lib_raw(1)\n",                                   # reaches a subroutine that was defined without folding
     "K5": "def K5():\n    lib_gate()\n    return lib_dyn(2)\n",
     "K4": "def K4():\n    return lib_layer(1)\n",
     "K3": "def K3():\n    from_way = spec.get_static_trap(zone_id=\"traps\")\n    move_by_waypoints(ilist.IList([from_way[0:2, 0:2], from_way[1:3, 0:2]]), True, True)\n    return lib_rows(2)\n",
 }
 KARGS = {"K6": (1.5,)}
-SHARED_NAMES = ["lib_gate", "lib_rows", "lib_park", "lib_layer", "lib_dyn", "lib_hopx", "move_by_waypoints", "move_by_waypoints_kernel", "hop"]
+SHARED_NAMES = ["lib_gate", "lib_rows", "lib_park", "lib_layer", "lib_dyn", "lib_hopx", "lib_raw", "move_by_waypoints", "move_by_waypoints_kernel", "hop"]
 
 
 SHARED_IDS = {}      # id(shared method of the current world) -> name
@@ -132,8 +141,8 @@ class World:
     def shared_behaviour(self):
         out = {}
         for sk, S in self.specs.items():
-            for n in ("lib_gate", "lib_rows", "lib_park", "lib_layer", "lib_dyn", "lib_hopx"):
-                args = (1,) if n in ("lib_rows", "lib_layer") else (2,) if n == "lib_dyn" else (0.5,) if n == "lib_hopx" else ()
+            for n in ("lib_gate", "lib_rows", "lib_park", "lib_layer", "lib_dyn", "lib_hopx", "lib_raw"):
+                args = (1,) if n in ("lib_rows", "lib_layer", "lib_raw") else (2,) if n == "lib_dyn" else (0.5,) if n == "lib_hopx" else ()
                 out[(n, sk)] = log_text(*events.run_events(self.shared[n], args, S))
         return out
 
@@ -195,7 +204,7 @@ def run_history(ctx, hist, specs, expect, base_behaviour):
                 ctx.fail({"kind": "spec-modified", "spec": sk}, rep, f"after step {step} {h}: spec {sk} was modified")
     ctx.evaluations += 1
     ctx.hist("history_len", len(hist))
-    if len({h[2] for h in hist if h[0] == "compile"}) == 2:
+    if len({h[2] for h in hist if h[0] == "compile"}) >= 2:
         ctx.nt(tuple(map(tuple, hist)))
 
 
@@ -218,7 +227,7 @@ def run(ctx):
     names = list(KERNELS)
     for r in (2, 3):
         for ks in itertools.permutations(names, r):
-            for sks in itertools.product("AB", repeat=r):
+            for sks in itertools.product("ABC", repeat=r):
                 base_h = [("compile", k, s) for k, s in zip(ks, sks)]
                 hists.append(base_h)
                 # interleave executions
@@ -230,9 +239,12 @@ def run(ctx):
                         inter.append(("run-shared",))
                 hists.append(inter)
     # recompiling the same kernel with the other spec, and compiling one kernel twice
-    hists += [[("compile", "K1", "A"), ("compile", "K1", "B"), ("run", "K1")], [("compile", "K2", "B"), ("run", "K2"), ("compile", "K2", "A"), ("compile", "K1", "B")]]
+    hists += [[("compile", "K1", "A"), ("compile", "K1", "B"), ("run", "K1")], [("compile", "K2", "B"), ("run", "K2"), ("compile", "K2", "A"), ("compile", "K1", "B")],
+              # equal layouts, different constants; a kernel over a subroutine that was defined without folding
+              [("compile", "K1", "A"), ("run", "K1"), ("compile", "K2", "C"), ("run", "K2"), ("compile", "K7", "C"), ("compile", "K7", "A")],
+              [("compile", "K7", "A"), ("run-shared",), ("compile", "K1", "C"), ("compile", "K6", "A")]]
     if ctx.quick:
-        hists = ctx.rng.sample(hists, 24) + hists[-2:]
+        hists = ctx.rng.sample(hists, 22) + hists[-4:]
     elif len(hists) > 700:
         # six kernels: every history of two compilations, and a sample of the histories of three
         two = [h for h in hists if sum(1 for x in h if x[0] == "compile") == 2]
@@ -255,17 +267,17 @@ def run(ctx):
 def store_model(ctx, hists):
     """replay the compile steps on Model.Store and let Coq predict which observations may change"""
     # method ids: 0 lib_gate, 1 lib_rows, 2 lib_park, 3 move_by_waypoints, 4 K1, 5 K2, 6 K3, 7 lib_layer, 8 K4, 9 lib_dyn, 10 K5 ; calls as in the sources
-    calls = {0: [], 1: [0], 2: [1], 3: [], 4: [0, 1], 5: [2, 0], 6: [3, 1], 7: [0, 1], 8: [7], 9: [], 10: [0, 9], 11: [], 12: [0, 11]}
-    kid = {"K1": 4, "K2": 5, "K3": 6, "K4": 8, "K5": 10, "K6": 12}
-    init = clist([f"(mkmeth {cnat(i)} None {clist([cnat(c) for c in calls[i]])})" for i in range(13)])
+    calls = {0: [], 1: [0], 2: [1], 3: [], 4: [0, 1], 5: [2, 0], 6: [3, 1], 7: [0, 1], 8: [7], 9: [], 10: [0, 9], 11: [], 12: [0, 11], 13: [0], 14: [13]}
+    kid = {"K1": 4, "K2": 5, "K3": 6, "K4": 8, "K5": 10, "K6": 12, "K7": 14}
+    init = clist([f"(mkmeth {cnat(i)} None {clist([cnat(c) for c in calls[i]])})" for i in range(15)])
     rows = []
     for h in hists[:40]:
-        steps = clist([f"({cnat(kid[x[1]])}, {cnat(1 if x[2] == 'A' else 2)})" for x in h if x[0] == "compile"])
+        steps = clist([f"({cnat(kid[x[1]])}, {cnat({'A': 1, 'B': 2, 'C': 3}[x[2]])})" for x in h if x[0] == "compile"])
         rows.append(steps)
     body = COQ_IMPORT + f"Definition st0 : store := {init}.\n"
     body += ("Definition row (steps : list (nat * nat)) : string :=\n"
              "  let st := fold_left (fun s c => compile s (fst c) (snd c)) steps st0 in\n"
-             "  (show_bool (shared_unchanged 4%nat st0 st && meth_eqb (nth 7 st0 dflt) (nth 7 st dflt) && meth_eqb (nth 9 st0 dflt) (nth 9 st dflt) && meth_eqb (nth 11 st0 dflt) (nth 11 st dflt)) ++ show_bool (forallb (fun c => sees_only 12%nat st (fst c) (last_spec steps (fst c))) steps))%string.\n")
+             "  (show_bool (shared_unchanged 4%nat st0 st && meth_eqb (nth 7 st0 dflt) (nth 7 st dflt) && meth_eqb (nth 9 st0 dflt) (nth 9 st dflt) && meth_eqb (nth 11 st0 dflt) (nth 11 st dflt) && meth_eqb (nth 13 st0 dflt) (nth 13 st dflt)) ++ show_bool (forallb (fun c => sees_only 12%nat st (fst c) (last_spec steps (fst c))) steps))%string.\n")
     body += "Eval vm_compute in (lines (map row " + clist(rows) + "))."
     ok, vals, log = coqrun.eval_lines(ctx.bdir, "store", body)
     if not ok or len(vals) != 1:
